@@ -29,15 +29,23 @@ def main():
     ap.add_argument("--only", default="*")
     ap.add_argument("--jobs", default="16")
     ap.add_argument("--demo", action="store_true", help="also run demo.py on the patched and unpatched tree")
+    ap.add_argument("--new-only", action="store_true", help="skip seeds that already have an entry in RESULTS.json")
+    ap.add_argument("--out", default=None, help="write results to this file instead of seeded/RESULTS.json")
     a = ap.parse_args()
     sdir = os.path.join(ROOT, "seeded")
     out = {}
     resf = os.path.join(sdir, "RESULTS.json")
     if os.path.exists(resf):
         out = json.load(open(resf))
+    done_before = set(out)
+    if a.out:
+        resf = a.out
+        out = json.load(open(resf)) if os.path.exists(resf) else {}
     for sid in sorted(os.listdir(sdir)):
         d = os.path.join(sdir, sid)
-        if not os.path.isdir(d) or not fnmatch.fnmatchcase(sid, a.only):
+        if not os.path.isdir(d) or not any(fnmatch.fnmatchcase(sid, g) for g in a.only.split(",")):
+            continue
+        if a.new_only and sid in done_before:
             continue
         meta = json.load(open(os.path.join(d, "meta.json")))
         if meta.get("retired"):
